@@ -112,6 +112,12 @@ def _apply_rules(toks, start, end, opts, drops, is_traitimpl=False, whole_file=F
         else:
             for q in range(a, c + 1): skip.add(q)
             drops.append("D2 attribute erased: " + "".join(t.text for t in toks[a:c + 1])[:60])
+    if "derive" in opts and opts["derive"] and not whole_file and not any(v.startswith("#[derive(") for v in replace.values()):
+        # the item had no derive list of its own (e.g. it relies on #[config_type]): state the derives the harness needs
+        core = start
+        while core < end and (toks[core].kind in TRIVIA or core in skip): core += 1
+        prefix[core] = "#[derive(" + ", ".join(d for d in opts["derive"].split(",") if d) + ")]\n" + prefix.get(core, "")
+        drops.append("D2 derive list added in place of erased attribute macro: " + opts["derive"])
     # D3 debug macros
     if dropmacros:
         i = start
